@@ -42,30 +42,27 @@ var ObligatoryPrintDirectiveNames = []string{}
 
 func directiveInsertWordBreaks(value data.Value, args []data.Value) data.Value {
 	var (
-		input    = template.HTMLEscapeString(value.String())
+		input    = value.String()
 		maxChars = int(args[0].(data.Int))
 		chars    = 0
-		output   *bytes.Buffer // create the buffer lazily
+		output   bytes.Buffer
 	)
-	for i, ch := range input {
+	// Characters of the value are counted (not bytes of its escaped form), and
+	// each one is written escaped as a whole: a break never lands inside a
+	// character reference such as &amp;.
+	for i := 0; i < len(input); {
+		var ch, size = utf8.DecodeRuneInString(input[i:])
 		switch {
 		case ch == ' ':
 			chars = 0
 		case chars >= maxChars:
-			if output == nil {
-				output = bytes.NewBufferString(input[:i])
-			}
 			output.WriteString("<wbr>")
 			chars = 1
 		default:
 			chars++
 		}
-		if output != nil {
-			output.WriteRune(ch)
-		}
-	}
-	if output == nil {
-		return data.String(input)
+		output.WriteString(template.HTMLEscapeString(input[i : i+size]))
+		i += size
 	}
 	return data.String(output.String())
 }
